@@ -14,6 +14,9 @@ checks = {
  "C05": ("model_checking", "bounded-exhaustive enumeration of events (every protected type x every subset of content keys and of extra top-level keys x every room version) executed on the real redaction entry points against per-version spec tables (refredact), with idempotence, identity and signature oracles",
          "Every event of the alphabet is redacted by the real code (RedactEventJSON and PDU.Redact) and compared value-for-value with an independent transcription of the specification's redaction tables; histories of interleaved cases share one process so hidden state between redactions is exercised.",
          "trusts ed25519/sha256; numbers outside +/-(2^53-1) and floats are outside the alphabet", "4/C05"),
+ "C02": ("model_checking", "explicit-state search over operation sequences (sign by several identities / re-serialise / edit unsigned / foreign signature) up to a depth bound on generated objects, every transition executed on the real SignJSON/VerifyJSON/ListKeyIDs and compared with reference ed25519 signatures; every single-member mutation of every distinct reached state must fail",
+         "All operation sequences up to the bound from all start objects are executed on the real code; states are deduplicated by exact text; the oracle is exact (deterministic ed25519 over the reference canonical form).",
+         "ed25519 trusted; objects limited to the member menu", "4/C02"),
 }
 pending = {}
 props = [json.loads(l) for l in open('/verif/properties.jsonl')]
